@@ -44,6 +44,7 @@ extern int verif_exc;
 typedef struct { int first; int second; } Pair_int_int;
 typedef struct { bool first; long long second; } Pair_bool_longlong;
 typedef struct { float first; int second; } Pair_float_int;
+typedef struct { bool first; int second; } Pair_bool_int;
 
 /* ghost code marker: may only assign ghost variables */
 #define GHOST(stmt) stmt
